@@ -96,6 +96,20 @@ def approx_same(ref, got, eps):
     return True
 
 
+def approx_same_perm(ref, got, eps):
+    """approx_same up to the order of the contours (folding a non-exported component into its user moves the folded contours
+    in front of the remaining components: C13)"""
+    if len(ref) != len(got):
+        return False
+    rest = list(got)
+    for a in ref:
+        hit = next((k for k, b in enumerate(rest) if approx_same([a], [b], eps)), None)
+        if hit is None:
+            return False
+        rest.pop(hit)
+    return True
+
+
 def explore(ctx):
     import ufo2ft
     from ufo2ft.preProcessor import OTFPreProcessor
@@ -182,6 +196,18 @@ def explore(ctx):
                   [{"name": "flattenComponents", "pre": True}, {"name": "propagateAnchors", "pre": True}]][(i // 3) % 3]
             desc["lib"] = {"com.github.googlei18n.ufo2ft.filters": fl}
             ctx.klass("sem:lib filters " + "+".join(f["name"] for f in fl))
+        skipped = []
+        if i % 4 == 2:
+            # a glyph that others use as a component (possibly mirrored, possibly through nesting) is not exported: it is
+            # folded into its users, whose outlines must still be the resolved source outlines
+            used = sorted({b for g in desc["glyphs"] for b, _ in g["components"]})
+            if used:
+                skipped = [rng.choice(used)]
+                if i % 8 == 2:
+                    kw["skipExportGlyphs"] = list(skipped)
+                else:
+                    desc.setdefault("lib", {})["public.skipExportGlyphs"] = list(skipped)
+                ctx.klass("sem:non-exported component")
         case = {"font": jsonable(desc), "lib": lib, "options": kw, "level": "compileOTF"}
         try:
             tt = ufo2ft.compileOTF(build_font(desc, lib), **kw)
@@ -209,6 +235,10 @@ def explore(ctx):
             ctx.nontriv(("c", i, ctx.scale))
         for g in desc["glyphs"]:
             name = g["name"]
+            if name in skipped:
+                if name in tt.getGlyphOrder():
+                    ctx.spec_failure(dict(case, glyph=name), "non-exported glyph %r is in the compiled font" % name)
+                continue
             adv = tt["hmtx"][name][0]
             # independent segment-level reference (all glyphs, incl. quadratic)
             try:
@@ -231,9 +261,13 @@ def explore(ctx):
                 # tolerance" is checked with 0.1 unit of encoding slack
                 npts = sum(len(flat(sgm)[1]) for sgm in exact)
                 # each delta is re-encoded with <= 0.005 error and the errors add up along the whole charstring
-                if not approx_same(exact, got, tol + Fr(1, 10) + Fr(npts, 150)):
+                if not (approx_same_perm if skipped else approx_same)(exact, got, tol + Fr(1, 10) + Fr(npts, 150)):
                     ctx.spec_failure(dict(case, glyph=name), "compiled outline of %r moved by more than roundTolerance %s from the "
                                      "resolved source outline" % (name, tol))
+            elif skipped and sorted(repr(geom.cyc_canon(geom.merge_axis_lines(s))) for s in ref) == \
+                    sorted(repr(geom.cyc_canon(geom.merge_axis_lines(s))) for s in got):
+                # same contours; their order may differ where a non-exported component was folded in (C13)
+                continue
             elif [geom.cyc_canon(s) for s in ref] != [geom.cyc_canon(s) for s in got] and kw["optimizeCFF"] >= 1 and \
                     [geom.cyc_canon(geom.merge_axis_lines(s)) for s in ref] == [geom.cyc_canon(geom.merge_axis_lines(s)) for s in got]:
                 # same outline; the specialiser folded a straight axis-parallel run of two lines into one (observation O7)
@@ -244,7 +278,7 @@ def explore(ctx):
                                  "(segment-level reference): got %r want %r" % (name, jsonable(got)[:3], jsonable(ref)[:3]))
             if adv != geom.ot_round(g["width"]):
                 ctx.spec_failure(dict(case, glyph=name), "hmtx advance %r != otRound(width %s)" % (adv, g["width"]))
-            if not has_q(desc, name) and tol >= Fr(1, 2):
+            if not has_q(desc, name) and tol >= Fr(1, 2) and not skipped:
                 obs.append((name, geom.drawn_points(gs[name]), adv))
         if obs:
             cases.append(G.tup(G.tup(geom.g_q(tol), geom.g_glyphset(desc["glyphs"])),
